@@ -30,6 +30,17 @@ const VALUES: &[Val] = &[
   Val { json: "18446744073709551615", cbor: &[0x1b, 0xff, 0xff, 0xff, 0xff, 0xff, 0xff, 0xff, 0xff] },
   Val { json: "", cbor: &[0x3b, 0xff, 0xff, 0xff, 0xff, 0xff, 0xff, 0xff, 0xff] }, // -2^64
   Val { json: "10", cbor: &[0x0a] },
+  // non-ASCII text (character count != byte count) and integers at the byte-width boundaries
+  Val { json: "\"\u{e9}\"", cbor: &[0x62, 0xc3, 0xa9] },
+  Val { json: "\"Zo\u{eb}\"", cbor: &[0x64, 0x5a, 0x6f, 0xc3, 0xab] },
+  Val { json: "\"abc\"", cbor: &[0x63, 0x61, 0x62, 0x63] },
+  Val { json: "255", cbor: &[0x18, 0xff] },
+  Val { json: "256", cbor: &[0x19, 0x01, 0x00] },
+  Val { json: "65536", cbor: &[0x1a, 0x00, 0x01, 0x00, 0x00] },
+  Val { json: "4294967296", cbor: &[0x1b, 0x00, 0x00, 0x00, 0x01, 0x00, 0x00, 0x00, 0x00] },
+  Val { json: "9223372036854775808", cbor: &[0x1b, 0x80, 0x00, 0x00, 0x00, 0x00, 0x00, 0x00, 0x00] },
+  Val { json: "-256", cbor: &[0x38, 0xff] },
+  Val { json: "-257", cbor: &[0x39, 0x01, 0x00] },
 ];
 
 const TYPES: &[&str] = &["int", "uint", "nint", "float", "tstr", "bool", "nil", "5", "\"a\"", "0..10", "[* int]", "{* tstr => int}", "any", "number", "bstr", "true"];
@@ -207,6 +218,14 @@ pub fn find_mirror(_args: &[String]) -> i32 {
   for x in ["integer", "unsigned", "text", "bytes", "nil", "null", "bool", "false", "0...10", "-5..5", "tstr .size 1", "tstr .size (0..1)", "uint .size 1", "tstr .regexp \"a*\"", "[int, ? tstr]", "{ ? \"a\": int }", "{ * tstr => any }", "[* any]", "float16", "float32", "float64", "1.5", "-3", "18446744073709551615", "uint .default 5"] {
     schemas.push(format!("t = {}\n", x));
   }
+  for n in [0, 1, 2, 3, 4, 5, 7, 8, 9, 16] {
+    schemas.push(format!("t = tstr .size {}\n", n));
+    schemas.push(format!("t = uint .size {}\n", n));
+    schemas.push(format!("t = {{ k: tstr .size {} }}\n", n));
+  }
+  for x in ["tstr .size (1..2)", "tstr .size (2..3)", "tstr .regexp \"\u{e9}+\"", "tstr .regexp \".\"", "tstr .regexp \"..\"", "\"\u{e9}\"", "tstr .eq \"\u{e9}\"", "tstr .ne \"Zo\u{eb}\"", "0..255", "0..256", "-256..0", "uint .lt 256", "uint .le 255", "uint .gt 255", "int .ge -256", "uint .bits 255"] {
+    schemas.push(format!("t = {}\n", x));
+  }
   let mut tried = 0u64;
   let mut failing: Vec<String> = vec![];
   let mut first: Option<String> = None;
@@ -216,6 +235,16 @@ pub fn find_mirror(_args: &[String]) -> i32 {
         continue;
       }
       tried += 1;
+      // `t = { k: ... }` schemas take the value wrapped in a one-member map
+      let wrapped;
+      let v = if sc.starts_with("t = { k:") {
+        let mut cb = vec![0xa1, 0x61, b'k'];
+        cb.extend_from_slice(v.cbor);
+        wrapped = Val { json: Box::leak(format!("{{\"k\":{}}}", v.json).into_boxed_str()), cbor: Box::leak(cb.into_boxed_slice()) };
+        &wrapped
+      } else {
+        v
+      };
       let (j, c) = (jv(sc, v).unwrap(), cv(sc, v));
       let differs = match (&j, &c) {
         (Ok(a), Ok(b)) => a != b,
